@@ -427,3 +427,71 @@ func isBuiltinNamed(call *ssa.Call, name string) bool {
 	b, ok := call.Call.Value.(*ssa.Builtin)
 	return ok && b.Name() == name
 }
+
+var _ = late(func() {
+	p := properties["C04"]
+	p.Rules = append(p.Rules, &Rule{ID: "C04.iter-termination", Floor: 2, Clause: "the deque iterator never decides that it is finished by comparing its cursor position with another position before reading: in a ring buffer whose length may equal its capacity 'one past the back' is the front, so a full deque would look exhausted (termination must come from a flag/count set after the back element was yielded, the empty test, or the generation test)",
+		Run: ruleDequeIterTermination})
+	q := properties["C15"]
+	q.Rules = append(q.Rules, &Rule{ID: "C15.iter-termination", Floor: 2, Clause: "same rule as C04.iter-termination: on an unchanged deque the iterator yields the whole contents also when the buffer is exactly full",
+		Run: ruleDequeIterTermination})
+})
+
+func ruleDequeIterTermination(c *Ctx, r *R) {
+	fn := c.fn("container/deque.dequeIterator.Next")
+	if fn == nil {
+		r.undecided("deque.dequeIterator.Next|missing", token.NoPos, "anchor not found")
+		return
+	}
+	// the cursor: the index value used to read d.a
+	cursorPaths := map[string]bool{}
+	instrs(fn, func(b *ssa.BasicBlock, i int, in ssa.Instruction) {
+		if ia, ok := in.(*ssa.IndexAddr); ok {
+			if f, _, ok := rootField(ia.X); ok && f == "a" {
+				cursorPaths[path(ia.Index)] = true
+			}
+		}
+	})
+	k := 0
+	instrs(fn, func(b *ssa.BasicBlock, i int, in ssa.Instruction) {
+		ret, ok := in.(*ssa.Return)
+		if !ok || len(ret.Results) != 2 {
+			return
+		}
+		kc, isC := ret.Results[1].(*ssa.Const)
+		if !isC || kc.Value == nil || kc.Value.String() != "false" {
+			return
+		}
+		k++
+		bad := ""
+		gs := append(guardsOf(b), guardsOfSelf(b)...)
+		for _, p := range b.Preds { // short-circuit disjunctions: any branch that jumps straight to this return
+			if iff, ok := p.Instrs[len(p.Instrs)-1].(*ssa.If); ok {
+				gs = append(gs, guard{cond: iff.Cond, val: p.Succs[0] == b, blk: p})
+			}
+		}
+		for _, g := range gs {
+			cf, ok := g.asCmp()
+			if !ok {
+				continue
+			}
+			xs, ys := path(cf.x), path(cf.y)
+			_, xc := cf.x.(*ssa.Const)
+			_, yc := cf.y.(*ssa.Const)
+			if (cursorPaths[xs] && !yc) || (cursorPaths[ys] && !xc) {
+				bad = xs + " " + cf.op.String() + " " + ys
+			}
+		}
+		r.ok(bad == "", "deque.dequeIterator.Next|end-return#"+itoa(k), retPos(ret), "the iterator reports exhaustion because of the position comparison `"+bad+"` made before reading: when the deque is exactly full, the position one past the back equals the front and a non-empty deque yields nothing")
+	})
+	// termination exists: some path sets a flag/counter after reading the back element, or compares with back after the read
+	after := false
+	instrs(fn, func(b *ssa.BasicBlock, i int, in ssa.Instruction) {
+		if st, ok := in.(*ssa.Store); ok {
+			if _, f, ok := storedField(st.Addr); ok && (f == "done" || f == "remaining" || f == "left") {
+				after = true
+			}
+		}
+	})
+	r.ok(after && k >= 1, "deque.dequeIterator.Next|terminates-after-back", fn.Pos(), "the iterator must record that it has yielded the back element (a flag or count), which is how it ends without a position comparison")
+}
